@@ -290,9 +290,10 @@ func newWorld(rng *vh.Rng, out liner) *world {
 	}
 	// supplemental data
 	for i := 0; i < 3; i++ {
+		// 0 and 1 differ in the commitments only, 0 and 2 in the power-table CID only
 		var s gpbft.SupplementalData
-		s.Commitments[0] = byte(i)
-		s.PowerTable = gpbft.MakeCid([]byte(fmt.Sprintf("supp-pt-%d", i)))
+		s.Commitments[0] = byte(i % 2)
+		s.PowerTable = gpbft.MakeCid([]byte(fmt.Sprintf("supp-pt-%d", i/2)))
 		w.supps = append(w.supps, s)
 	}
 	w.supps = append(w.supps, gpbft.SupplementalData{}) // undefined CID: cannot be marshalled
@@ -355,7 +356,7 @@ func (w *world) descKey(k gpbft.ECChainKey) string {
 
 func (w *world) suppID(s *gpbft.SupplementalData) int {
 	for i := range w.supps {
-		if w.supps[i].Eq(s) {
+		if w.supps[i].Commitments == s.Commitments && w.supps[i].PowerTable == s.PowerTable {
 			return i
 		}
 	}
